@@ -448,15 +448,17 @@ func (fx *fnExec) builtinAppend(dst *ssa.Call, c *ssa.CallCommon, args []SV, whe
 		// other arrays unchanged
 		fx.assume(Term{fmt.Sprintf("(forall ((a$q Int) (i$q Int)) (! (=> (not (= a$q %s)) (= (select (select %s a$q) i$q) (select (select %s a$q) i$q))) :pattern ((select (select %s a$q) i$q))))", rArr.S, nh.S, h.S, nh.S), SBool})
 		// old content preserved in the result window
-		fx.assume(Term{fmt.Sprintf("(forall ((i$q Int)) (! (=> (and (<= 0 i$q) (< i$q %s)) (= (select (select %s %s) (+ %s i$q)) (select (select %s %s) (+ %s i$q)))) :pattern ((select (select %s %s) (+ %s i$q)))))",
-			s.Len.S, nh.S, rArr.S, rOff.S, h.S, s.Arr.S, s.Off.S, nh.S, rArr.S, rOff.S), SBool})
+		iq := Term{"i$q", SInt}
+		jq := Term{"j$q", SInt}
+		fx.assume(Term{fmt.Sprintf("(forall ((i$q Int)) (! (=> (and (<= 0 i$q) (< i$q %s)) (= (select (select %s %s) %s) (select (select %s %s) %s))) :pattern ((select (select %s %s) %s))))",
+			s.Len.S, nh.S, rArr.S, fx.eIdx(rOff, iq).S, h.S, s.Arr.S, fx.eIdx(s.Off, iq).S, nh.S, rArr.S, fx.eIdx(rOff, iq).S), SBool})
 		// appended content
 		if srcIsStr {
-			fx.assume(Term{fmt.Sprintf("(forall ((j$q Int)) (=> (and (<= 0 j$q) (< j$q %s)) (= (select (select %s %s) (+ %s %s j$q)) (sat %s j$q))))",
-				k.S, nh.S, rArr.S, rOff.S, s.Len.S, srcStr.S), SBool})
+			fx.assume(Term{fmt.Sprintf("(forall ((j$q Int)) (=> (and (<= 0 j$q) (< j$q %s)) (= (select (select %s %s) %s) (sat %s j$q))))",
+				k.S, nh.S, rArr.S, fx.eIdx(rOff, app(SInt, "+", s.Len, jq)).S, srcStr.S), SBool})
 		} else if k.S != "0" {
-			fx.assume(Term{fmt.Sprintf("(forall ((j$q Int)) (=> (and (<= 0 j$q) (< j$q %s)) (= (select (select %s %s) (+ %s %s j$q)) (select (select %s %s) (+ %s j$q)))))",
-				k.S, nh.S, rArr.S, rOff.S, s.Len.S, h.S, srcArr.S, srcOff.S), SBool})
+			fx.assume(Term{fmt.Sprintf("(forall ((j$q Int)) (=> (and (<= 0 j$q) (< j$q %s)) (= (select (select %s %s) %s) (select (select %s %s) %s))))",
+				k.S, nh.S, rArr.S, fx.eIdx(rOff, app(SInt, "+", s.Len, jq)).S, h.S, srcArr.S, fx.eIdx(srcOff, jq).S), SBool})
 		}
 		// in place: everything outside the appended window is unchanged
 		fx.assume(tImp(fits, Term{fmt.Sprintf("(forall ((i$q Int)) (! (=> (or (< i$q (+ %s %s)) (>= i$q (+ %s %s %s))) (= (select (select %s %s) i$q) (select (select %s %s) i$q))) :pattern ((select (select %s %s) i$q))))",
